@@ -433,6 +433,19 @@ pub fn steer_liquidatable(tr: &mut Tracer, w: &mut World, rng: &mut Rng, v: u32,
             }
         }
     }
+    // one time in eight the liquidation fee ratio is set so that the penalty on this position is exactly one unit (the
+    // liquidator's half then rounds down to zero): the smallest non-zero penalty
+    if rng.chance(1, 8) {
+        if let Some(pn) = spot_pnl(w, v, t) {
+            let o = pn.position_notional.u128();
+            if o > 0 {
+                let f = d / o + 1;
+                if f <= d && o.checked_mul(f).map(|x| x / d) == Some(1) {
+                    tr.step(w, &Op::Eng { sender: ID_OWNER, funds: 0, m: EMsg::UpdCfg { owner: None, ifund: None, fpool: None, init: None, maint: None, plr: None, liqfee: Some(f) } });
+                }
+            }
+        }
+    }
     let limit = 0;
     let who = *rng.pick(&[LIQUIDATOR, LIQUIDATOR, STRANGER, TRADERS[0], t]);
     tr.step(w, &Op::Eng { sender: who, funds: 0, m: EMsg::Liq { vamm: v, trader: t, limit } });
@@ -497,6 +510,37 @@ pub fn drain_macro(tr: &mut Tracer, w: &mut World, rng: &mut Rng, v: u32) {
         }
     }
     steer_liquidatable(tr, w, rng, v, b);
+}
+
+
+/// the fluctuation limit for which the price after closing the whole position of (v,t) is exactly the edge of the band
+/// around the previous block's closing price (None when no integer limit hits it exactly)
+pub fn edge_limit_for_whole_close(w: &World, v: u32, t: u32) -> Option<u128> {
+    let p = w.position(v, t)?;
+    if p.size.value.is_zero() { return None; }
+    let c = vamm_cfg(w, v);
+    let st = vamm_state(w, v);
+    let quote: Option<Uint128> = w.q(&w.addr(v), &mv::QueryMsg::OutputAmount { direction: p.direction.clone(), amount: p.size.value });
+    let quote = quote?.u128();
+    let (q, b, vd) = (st.quote_asset_reserve.u128(), st.base_asset_reserve.u128(), c.decimals.u128());
+    let (q2, b2) = if p.direction == mv::Direction::AddToAmm { (q.checked_sub(quote)?, b.checked_add(p.size.value.u128())?) }
+                   else { (q.checked_add(quote)?, b.checked_sub(p.size.value.u128())?) };
+    if b2 == 0 { return None; }
+    let pz = q2.checked_mul(vd)? / b2;
+    // reference price: the band with the current limit is around it; recover it from the snapshots as `band` does
+    let n: u64 = w.raw_singleton(&w.addr(v), b"reserve_snapshot_counter")?;
+    let mut s = w.snapshot(&w.addr(v), n)?;
+    if s.block_height == w.app.block_info().height && n > 1 { s = w.snapshot(&w.addr(v), n - 1)?; }
+    let r = s.quote_asset_reserve.u128().checked_mul(vd)? / s.base_asset_reserve.u128();
+    if r == 0 || pz == r { return None; }
+    let x = pz.checked_mul(vd)?;
+    let est = if pz > r { (x / r).saturating_sub(vd) } else { vd.saturating_sub(x / r) };
+    for l in est.saturating_sub(2)..=est + 2 {
+        if l == 0 || l >= vd { continue; }
+        let e = if pz > r { r.checked_mul(vd + l).map(|y| y / vd) } else { r.checked_mul(vd - l).map(|y| y / vd) };
+        if e == Some(pz) { return Some(l); }
+    }
+    None
 }
 
 pub fn history(tr: &mut Tracer, w: &mut World, rng: &mut Rng, p: &Profile) {
@@ -652,7 +696,12 @@ pub fn history(tr: &mut Tracer, w: &mut World, rng: &mut Rng, p: &Profile) {
             tr.step(w, &Op::Eng { sender: STRANGER, funds: 0, m: EMsg::PayFunding { vamm: v } });
             tr.step(w, &Op::Block { dt: 1 + rng.below(20), dh: 1 });
             // tighten the band so that the close is split (the positions were opened with the band off)
-            let tight = *rng.pick(&[d / 1000, d / 500, d / 100]);
+            let mut tight = *rng.pick(&[d / 1000, d / 500, d / 100]);
+            // one time in three the limit is chosen so that closing the whole position lands exactly on the edge of the
+            // band (still inside it: the whole position has to be closed)
+            if rng.chance(1, 3) {
+                if let Some(l) = edge_limit_for_whole_close(w, v, t) { tight = l; }
+            }
             tr.step(w, &Op::Vamm { sender: ID_OWNER, v, m: VMsg::UpdCfg { hold: None, oi: None, toll: None, spread: None, fluct: Some(tight), engine: None, ifund: None, feed: None, twap: None } });
             tr.step(w, &Op::Eng { sender: t, funds: 0, m: EMsg::Close { vamm: v, limit: 0 } });
             // a second close in the same block: when the first (partial) one left the price outside the band the vAMM
